@@ -39,7 +39,7 @@ func (c *ConfirmCache) Push(data *BlockConfirmData) {
 	c.cache[data.Height][data.Hash] = append(c.cache[data.Height][data.Hash], data)
 
 	if len(c.cache) > 10240 {
-		c.Clear(^uint32(0))
+		c.clear(^uint32(0))
 	}
 }
 
@@ -67,6 +67,11 @@ func (c *ConfirmCache) Clear(height uint32) {
 	c.lock.Lock()
 	defer c.lock.Unlock()
 
+	c.clear(height)
+}
+
+// clear is Clear without lock
+func (c *ConfirmCache) clear(height uint32) {
 	for h, _ := range c.cache {
 		if h <= height {
 			delete(c.cache, h)
@@ -135,7 +140,7 @@ func (c *BlockCache) Add(block *types.Block) {
 	}
 
 	if len(c.cache) > 10240 {
-		c.Clear(^uint32(0))
+		c.clear(^uint32(0))
 	}
 }
 
@@ -157,6 +162,11 @@ func (c *BlockCache) Clear(height uint32) {
 	c.lock.Lock()
 	defer c.lock.Unlock()
 
+	c.clear(height)
+}
+
+// clear is Clear without lock
+func (c *BlockCache) clear(height uint32) {
 	index := -1
 	for i, item := range c.cache {
 		if item.Height <= height {
